@@ -393,3 +393,14 @@ Theorem checksum_build : forall c h data obj cx p o bs,
   build (CChecksum c h data) obj cx p o =
   match build c (apply_hash h bs) cx p o with Ok (_, o') => Ok (apply_hash h bs, o') | Err e q => Err e q end.
 Proof. intros. cbn [build]. rewrite H. cbn [bind]. destruct (build c _ cx p o) as [[x o1]|]; reflexivity. Qed.
+
+(* RawCopy built from {'value': v}: a failure of the inner construct comes out unchanged - same error class, same path (the names enclosing the
+   RawCopy and the names inside it both stay) *)
+Theorem rawcopy_build_error_passthrough : forall c value cx p o e q,
+  build c value cx p o = Err e q ->
+  build (CRawCopy c) (VDict [(n_value, value)]) cx p o = Err e q.
+Proof.
+  intros c value cx p o e q H. cbn [build bind].
+  change (lookup n_data [(n_value, value)]) with (@None val).
+  change (lookup n_value [(n_value, value)]) with (Some value). cbv iota beta. rewrite H. reflexivity.
+Qed.
